@@ -416,7 +416,83 @@ def explore_sp_special(case):
             continue
         if got.shape != want.shape or np.max(np.abs(got - want)) > 1e-12 * (1 + np.max(np.abs(want))):
             res.fail(site="casadi_to_sympy", clause="value_preserved", cls="matrix;" + tag, detail=dict(converted=got, source=want), sub="special", case=case)
-    res.samples.append(dict(special="matrices (both directions, dense and sparse), cse, f_dict, shared tables"))
+    # guarded expressions evaluated exactly where the guard is false and the guarded branch is singular (CasADi's if_else yields the other
+    # branch there; a translation as a product would give 0 * oo): the library's own small-angle switches among them
+    a, b = ca.SX.sym("a"), ca.SX.sym("b")
+    guarded = [("a_over_b_or_0", ca.if_else(ca.ne(b, 0), a / b, 0), [(1.5, 0.0), (0.0, 0.0), (2.0, 4.0)]),
+               ("xlogx", ca.if_else(a > 0, a * ca.log(a), 0), [(0.0, 1.0), (-1.0, 1.0), (2.0, 1.0)]),
+               ("sinc_guard", ca.if_else(ca.fabs(a) < 1e-3, 1 - a * a / 6, ca.sin(a) / a), [(0.0, 0.0), (1e-4, 0.0), (0.5, 0.0)]),
+               ("nested", ca.if_else(a > 1, ca.sqrt(a - 1), ca.if_else(a < -1, 1 / (a + 1) , 2.0)) + b, [(1.0, 0.5), (-1.0, 0.5), (0.0, 0.5), (5.0, 0.5), (-3.0, 0.5)])]
+    with contextlib.redirect_stdout(io.StringIO()):
+        from cyecca.symbolic import SERIES, SQUARED_SERIES
+    for nm in ("sin(x)/x", "(1 - cos(x))/x^2", "(x - sin(x))/x^3"):
+        if nm in SERIES:
+            guarded.append(("SERIES[%s]" % nm, 2 * SERIES[nm](a) + 1, [(0.0, 0.0), (1e-4, 0.0), (0.3, 0.0)]))
+        if nm in SQUARED_SERIES:
+            guarded.append(("SQUARED_SERIES[%s]" % nm, SQUARED_SERIES[nm](a) - b, [(0.0, 0.25), (1e-7, 0.25), (0.09, 0.25)]))
+    for tag, ex, pts in guarded:
+        try:
+            with contextlib.redirect_stdout(io.StringIO()):
+                sm = S.casadi_to_sympy(ex, {})
+        except NotImplementedError:
+            res.count("refused")
+            continue
+        except Exception as ex_:
+            res.count("evaluations")
+            res.fail(site="casadi_to_sympy", clause="value_preserved", cls="guarded;" + tag, detail=dict(error="%s: %s" % (type(ex_).__name__, str(ex_)[:200])), sub="special", case=case)
+            continue
+        fnum = ca.Function("g", [a, b], [ex])
+        for av, bv in pts:
+            res.count("evaluations")
+            res.nontrivial.add(hash(("guarded", tag, av, bv)))
+            want = float(fnum(av, bv))
+            try:
+                subs = {s_: (av if str(s_) == "a" else bv) for s_ in sm.free_symbols}
+                got = complex(sympy.N(sm.subs(subs), 17))
+                got = got.real if abs(got.imag) < 1e-30 else float("nan")
+            except Exception:
+                got = float("nan")
+            if not (math.isfinite(want) and abs(got - want) <= 1e-12 * (1 + abs(want))):
+                if math.isfinite(want):
+                    res.fail(site="casadi_to_sympy", clause="value_preserved", cls="guarded;" + tag, detail=dict(a=av, b=bv, converted=got, source=want, sympy=str(sm)[:200]), sub="special", case=case)
+    # a caller-supplied table for a MATRIX expression: the entries must use the table's symbols (the conversion of entry (i, j) gets the table)
+    for tag, Mx in (("jacobian", ca.jacobian(ca.vertcat(a * ca.cos(b), a * ca.sin(b)), ca.vertcat(a, b))), ("column", ca.vertcat(a + b, a * b, b))):
+        for names in (("a", "b"), ("b", "a")):  # the second table permutes the names
+            res.count("evaluations")
+            res.nontrivial.add(hash(("camat_table", tag, names)))
+            r_, th_ = sympy.Symbol("r_table", positive=True), sympy.Symbol("theta_table", real=True)
+            table = {names[0]: r_, names[1]: th_}
+            key_style = None
+            for mk_key in (lambda sx: str(sx), lambda sx: sx):
+                tb = {}
+                try:
+                    for sx, nm in ((a, "a"), (b, "b")):
+                        tb[mk_key(sx)] = table[nm]
+                    with contextlib.redirect_stdout(io.StringIO()):
+                        probe = S.casadi_to_sympy(a + b, dict(tb))
+                    if probe.free_symbols <= {r_, th_}:
+                        key_style = mk_key
+                        break
+                except Exception:
+                    continue
+            if key_style is None:
+                res.count("table_key_style_unknown")
+                continue
+            tb = {key_style(a): table["a"], key_style(b): table["b"]}
+            try:
+                with contextlib.redirect_stdout(io.StringIO()):
+                    sm = sympy.Matrix(S.casadi_to_sympy(Mx, tb))
+            except Exception as ex:
+                res.fail(site="casadi_to_sympy", clause="symbol_table_consistent", cls="matrix_with_table", detail=dict(error="%s: %s" % (type(ex).__name__, str(ex)[:200])), sub="special", case=case)
+                continue
+            stray = [str(x) for x in sm.free_symbols if x not in (r_, th_)]
+            want = np.array(ca.Function("m", [a, b], [ca.densify(Mx)])(0.7, -1.3), dtype=float)
+            val = {table["a"]: 0.7, table["b"]: -1.3}
+            got = np.array(sm.subs(val).evalf(17).tolist(), dtype=float) if not stray else None
+            if stray or got.shape != want.shape or np.max(np.abs(got - want)) > 1e-12:
+                res.fail(site="casadi_to_sympy", clause="symbol_table_consistent", cls="matrix_with_table", detail=dict(matrix=tag, names=list(names), stray_symbols=stray, converted=got, source=want),
+                         sub="special", case=case)
+    res.samples.append(dict(special="matrices (both directions, dense and sparse, with a caller's table), cse, f_dict, shared tables"))
     return res
 
 
